@@ -78,6 +78,8 @@ RULES: Dict[str, Dict[str, Any]] = {
     PJ + "numpy/diag.py": dict(spec=Spec("diag", {}), dom="none", param="-", operands="x+params"),
     PJ + "numpy/outer.py": dict(spec=Spec("outer", {}), dom="none", param="-", operands="pair"),
     PJ + "numpy/searchsorted.py": dict(spec=Spec("second", {}), dom="none", param="-", operands="table+queries"),
+    # @onnx_function primitives: the original callable is evaluated per example under jax.vmap (C10 anchor `FunctionPlugin._batching_rule`)
+    "jax2onnx/plugins/plugin_system.py": dict(spec=Spec("elementwise", {}, const={"_opaque_callee": ("original_fn",)}), dom="none", param="-", operands="two-any", func="FunctionPlugin._batching_rule"),
     PJ + "numpy/linspace.py": dict(spec=Spec("linspace", {"axis": "axis"}), dom="axis_out", param="axis", operands="linspace"),
 }
 
@@ -89,6 +91,9 @@ def _rule_functions(idx: Index, rel: str, entry: Dict[str, Any]) -> List[FuncInf
     if m is None:
         return []
     out: List[FuncInfo] = []
+    if entry.get("func"):
+        f = m.funcs.get(entry["func"])
+        return [f] if f is not None else []
     if entry.get("nested"):
         out = [f for q, f in m.funcs.items() if q.endswith(".<locals>." + entry["nested"])]
         return out
@@ -210,6 +215,8 @@ def _cases(entry: Dict[str, Any], fi: FuncInfo) -> Iterable[Tuple[List[Optional[
                     n_ops = len(st.targets[0].elts[0].elts)
             W = tuple(f"w{i}" for i in range(r))
             ops = [([L] + [W] * (n_ops - 1), [[bd] + [None] * (n_ops - 1) for bd in range(r + 1)])]
+        elif kind_ops == "two-any":
+            ops = [([L, L], [[b0, b1] for b0 in list(range(r + 1)) + [None] for b1 in list(range(r + 1)) + [None] if not (b0 is None and b1 is None)])]
         elif kind_ops == "pair":
             bds = [[b0, b1] for b0 in list(range(r + 1)) + [None] for b1 in (0, 1, None) if not (b0 is None and b1 is None)]
             ops = [([L, ("i0",)], bds)]
